@@ -1218,6 +1218,14 @@ def main(prop):
                                                              kind=Mo.get('kind', 'int'),
                                                              deviations=Mo['deviations'])
             V.phase('model checking (implementation model)')
+        if prop == 'C08':
+            # "identically on plain observables": the two readings of PlainSem agree on tees
+            rp = C.run_tlc('PlainCheck', C.cfg(constants=dict(MaxLen=3, Depth=1, BranchLen=2 if thorough else 1),
+                                               invariants=['MuxEqualsPlain', 'FlatAgrees']), workers=4)
+            if rp.violated:
+                raise C.MachineryError('PlainCheck violates %s:\n%s' % (rp.violated, rp.error_trace))
+            extra_mc.append({'module': 'PlainCheck', **rp.summary()})
+            V.phase('model checking (tee_map, plain and multiplexed readings)')
         apa = None
         if prop == 'C05':
             apa = apalache_roll(V, thorough)
